@@ -466,6 +466,11 @@ def main(pid, tier, replay=None):
         mc_recover(res, pid, tier)
     if pid in ("C01", "C02") and not replay:
         mc_pager(res, pid, tier)
+    if pid == "C01" and not replay:
+        # the compile-time route: the parser a build leaves in place over a used output directory is
+        # the parser of the CURRENT grammar (shared with C18: lib/p_ct.py, TraceCT.tla)
+        from . import p_ct
+        p_ct.run(res, "C01", tier)
     if pid in ("C05", "C06") and not replay:
         mc_cpct(res, pid, tier)
     if pid == "C03" and not replay:
